@@ -36,6 +36,29 @@ def expectedVerdict (trackers : List (Nat × List Sel)) : Bool :=
 def verdictFaithful (trackers : List (Nat × List Sel)) (v : Bool) : Bool :=
   v == expectedVerdict trackers
 
+/-! ### the count a plan expects -/
+
+/-- a log counts for a log-trigger upkeep when it carries the upkeep's trigger value, is emitted at or after the
+upkeep's creation, and the upkeep is eligible at or after the log (always, or at one of its eligible blocks) -/
+def logCounts (u : Upkeep) (l : LogEv) : Bool :=
+  decide (u.createInBlock ≤ l.triggerAt) && (l.triggerValue == u.triggeredBy) &&
+  (u.alwaysEligible || u.eligibleAt.any fun b => decide (l.triggerAt ≤ b))
+
+/-- the number of performs a plan expects: one per eligible block of an expected conditional upkeep, one per
+counting log of an expected log-trigger upkeep -/
+def expectedSpec (ups : List Upkeep) (logs : List LogEv) : Nat :=
+  ((ups.filter (·.expected)).map fun u =>
+    match u.type with
+    | .conditional => u.eligibleAt.length
+    | .logTrigger => (logs.filter (logCounts u)).length).sum
+
+def transmitNamespace (expected : Nat) : String :=
+  if expected = 0 then "No upkeep perform events expected" else "Collecting upkeep perform events"
+
+/-- what `NewOCR3TransmitLoader` must register for the perform counter -/
+def registeredOk (ups : List Upkeep) (logs : List LogEv) (total : Int) (ns : String) : Bool :=
+  decide (total = (expectedSpec ups logs : Int)) && ns == transmitNamespace (expectedSpec ups logs)
+
 /-! ### plan round trip -/
 
 def roundtripOk (p : Plan) (loaded : Except DecErr Plan) : Bool :=
